@@ -1,5 +1,5 @@
 """C09 - Barrier releases a generation only when every participant has arrived."""
-from ..engine import CALLS, path, unwrap
+from ..engine import CALLS, path, unwrap, callee_fq
 from ..cv import check_waits, cv_notifies, notify_follows, predicate_lambda, cv_waits
 from ..guards import check_guarded_fields, field_refs, class_functions, effective_access, READ_KINDS
 from .. import common
@@ -152,6 +152,31 @@ def epoch(ctx, ws):
                fn=top.label, inst=f.qname)
         if not ok:
             continue
+        # an init-capture `[this, lGen = generation_]` reads the epoch when the closure is built - at the wait call, inside
+        # the critical section that counted the arrival as long as nothing released the lock in between
+        init_cap = None
+        for s_ in f.stmts.values():
+            if s_["k"] == "LambdaExpr" and g.id in s_.get("call_ops", []):
+                for c_ in s_.get("caps", []):
+                    v_ = c_.get("var") or {}
+                    if ("l:" + v_.get("name", "") == cap or "p:" + v_.get("name", "") == cap) and c_.get("init") and \
+                            path(f, f.s(c_["init"])) == "this.generation_" and v_.get("k") != "param":
+                        init_cap = s_
+        if init_cap is not None and f.pos_of(init_cap):
+            q = tuple(f.pos_of(init_cap))
+            pts = _arrival_points(ctx, f)
+            rel = [tuple(f.pos_of(x)) for x in f.stmts.values() if x["k"] == "CXXMemberCallExpr" and f.pos_of(x) and
+                   (x.get("callee") or {}).get("name") in ("unlock", "wait", "wait_for", "wait_until") and x["id"] != st["id"]]
+            ok = bool(pts) and all(
+                (f.dominates(q, tuple(f.pos_of(p_))) and q != tuple(f.pos_of(p_))) or
+                (f.dominates(tuple(f.pos_of(p_)), q) and not any(f.reach_avoiding(tuple(f.pos_of(p_)), r_, []) and f.reach_avoiding(r_, q, [])
+                                                                   for r_ in rel))
+                for p_, _k in pts)
+            ctx.ob(rid, ok, f.loc(init_cap), "the generation is captured (under the lock) before this arrival is counted, or in the same "
+                   "critical section before the wait gives the lock up", "" if ok else
+                   "the epoch is read after the lock was released once since the arrival: the generation may already have moved on, "
+                   "and the waiter then waits for the next one", fn=top.label, inst=f.qname)
+            continue
         # where the captured value comes from: a local of this function, or (private helper) of each caller
         sites = []
         if cap.startswith("p:"):
@@ -274,8 +299,51 @@ def arrive(ctx):
                 th = [s for s, op in field_writes(ctx, f, "threshold_") if op == "--"]
                 ok = len(th) == 1 and all(f.dominates(f.pos_of(th[0]), f.pos_of(p_)) and f.pos_of(th[0]) != f.pos_of(p_)
                                           for p_, _k in pts)
-                ctx.ob(rid, ok, f.where, "wait_and_drop lowers threshold_ before counting its arrival (test and reset see the new threshold)",
-                       "" if ok else "threshold_ is not decremented exactly once before the arrival", fn=f.label, inst=f.qname)
+                detail = "" if ok else "threshold_ is not decremented exactly once before the arrival"
+                if not th:
+                    # the drop may be BOOKED and applied by whoever completes the generation: the dropper counts itself into an
+                    # integer member before its arrival, and the release branch takes that member's whole value off threshold_
+                    # (and empties it) before count_ is reset.  A flag instead of a count loses every drop but one.
+                    ok, detail = _deferred_drop(ctx, f, pts)
+                ctx.ob(rid, ok, f.where, "wait_and_drop lowers threshold_ before counting its arrival (test and reset see the new threshold), "
+                       "or books the drop in a counter the completing arrival subtracts", detail, fn=f.label, inst=f.qname)
+
+
+def _deferred_drop(ctx, f, pts):
+    incs = []
+    for st in f.stmts.values():
+        if st["k"] in ("UnaryOperator", "CompoundAssignOperator") and st.get("op") in ("++", "+=") and f.pos_of(st):
+            p = path(f, f.children(st)[0]) or ""
+            if p.startswith("this.") and p[5:] not in ("count_", "threshold_", "generation_"):
+                if st["op"] == "+=" and (unwrap(f, f.children(st)[1]) or {}).get("v") != 1:
+                    continue
+                incs.append((p[5:], st))
+    if not incs:
+        return False, "threshold_ is not decremented exactly once before the arrival"
+    fld, inc = incs[0]
+    for r_ in ctx.fb.records(tmpl=CLS):
+        fl = r_.field(fld)
+        if fl is None or fl["type"] in ("bool", "std::atomic<bool>", "std::atomic_bool"):
+            return False, "%s is a flag: two participants that drop in one generation lower the threshold once" % fld
+    if not all(f.dominates(f.pos_of(inc), f.pos_of(p_)) and f.pos_of(inc) != f.pos_of(p_) for p_, _k in pts):
+        return False, "%s is not counted up before the arrival" % fld
+    # the release side: threshold_ -= <value of fld>, fld emptied, before count_ = threshold_
+    subs = [st for st in f.stmts.values() if st["k"] == "CompoundAssignOperator" and st.get("op") == "-=" and
+            path(f, f.children(st)[0]) == "this.threshold_" and f.pos_of(st) and
+            any(d["k"] == "MemberExpr" and d["m"].get("name") == fld for d in f.descendants(f.children(st)[1]))]
+    resets = [st for st in f.stmts.values() if st["k"] == "BinaryOperator" and st.get("op") == "=" and
+              path(f, f.children(st)[0]) == "this.count_" and path(f, f.children(st)[1]) == "this.threshold_" and f.pos_of(st)]
+    if len(subs) != 1 or not resets:
+        return False, "the release branch does not take %s off threshold_ before count_ is reset" % fld
+    if not all(f.dominates(f.pos_of(subs[0]), f.pos_of(r)) for r in resets):
+        return False, "count_ is reset from threshold_ before the booked drops are subtracted"
+    emptied = any(d["k"] == "CallExpr" and callee_fq(d) == "std::exchange" for d in f.descendants(subs[0])) or \
+        any(st["k"] == "BinaryOperator" and st.get("op") == "=" and path(f, f.children(st)[0]) == "this." + fld and
+            (unwrap(f, f.children(st)[1]) or {}).get("v") == 0 and f.pos_of(st) and f.dominates(f.pos_of(subs[0]), f.pos_of(st))
+            for st in f.stmts.values())
+    if not emptied:
+        return False, "%s is not emptied when it is applied: the same drops are subtracted again in the next generation" % fld
+    return True, ""
 
 
 def initial(ctx):
